@@ -38,6 +38,8 @@ FIELD = {
     ("shared::PosixDay", "WeekdayOfMonth", "weekday"): (0, 6),
     ("shared::TzifLocalTimeType", None, "offset"): (-93599, 93599),
     ("signed_duration::SignedDuration", None, "nanos"): (-NS, NS),
+    # the fraction handed to Fractional::new by FractionalPrinter::print
+    ("fmt::friendly::printer::FractionalPrinter", None, "fraction"): (0, NS),
 }
 
 # parameter contracts: fn path -> {param index (1-based MIR local): (lo, hi)}
@@ -66,6 +68,13 @@ PARAM = {
     "signed_duration::SignedDuration::from_mins": {1: (-153_722_867_280_912_930, 153_722_867_280_912_930)},
     "tz::offset::Offset::constant": {1: (-25, 25)},
     "timestamp::Timestamp::constant": {1: UNIX_S, 2: (-NS, NS)},
+    # Fractional::new asserts 0 <= value <= 999_999_999 ("This panics if the value given isn't in the range"): the callers
+    # owe it, at every call site (a reviewed reason on the assert that lists today's callers would silently cover a caller
+    # whose arithmetic changed - seed C15-c)
+    "fmt::util::Fractional::new": {2: (0, 999_999_999)},
+    "fmt::util::FractionalFormatter::format": {2: (0, 999_999_999)},
+    "fmt::WriteExt::write_fraction": {3: (0, 999_999_999)},
+    "fmt::strtime::format::<impl fmt::strtime::Extension>::write_fractional_seconds": {2: (0, 999_999_999)},
     # unchecked entrances used by tz::tzif on validated TZif fields
     "tz::offset::Offset::from_seconds_unchecked": {1: (-93599, 93599)},
 }
